@@ -49,3 +49,39 @@ namespace rkverif_c06 {
     return table[i & 3];
   }
 }  // namespace rkverif_c06
+
+// self-check of R-C06-pole / R-C06-transl / R-C06-align (expected count on the library is zero)
+namespace rkverif_c06 {
+  using namespace rkcommon::math;
+  inline float versine_pole(float r)                 // must be reported: 1 + cos r vanishes at r = pi
+  {
+    const float s = sin(r), c = cos(r);
+    return s * s / (1 + c);
+  }
+  inline float versine_ok(float r)                   // must not be reported: 2 + cos r >= 1
+  {
+    const float c = cos(r);
+    return (1 - c) / (2 + c);
+  }
+  inline vec3f xfmVector(const AffineSpace3f &m, const vec3f &v)   // must be reported: goes through the translation
+  {
+    return rkcommon::math::xfmPoint(m, v) - m.p;
+  }
+  inline vec3f xfmNormal(const AffineSpace3f &m, const vec3f &n)   // must not be reported
+  {
+    return rkcommon::math::xfmNormal(m.l, n);
+  }
+#ifndef RKCOMMON_NO_SIMD
+  inline float load_padded(const vec3fa &v)          // must be reported: vec3fa is padded, not aligned
+  {
+    const __m128 r = _mm_load_ps(&v.x);
+    return _mm_cvtss_f32(r);
+  }
+  inline float load_aligned_local(const vec3fa &v)   // must not be reported
+  {
+    alignas(16) float f[4] = {v.x, v.y, v.z, 0.f};
+    const __m128 r = _mm_load_ps(f);
+    return _mm_cvtss_f32(r);
+  }
+#endif
+}  // namespace rkverif_c06
